@@ -4,6 +4,7 @@
 set -u
 P=$1; C=$2; T=${3:-quick}
 [ -f "$P" ] || P=/verif/seeded/$1/patch.diff
+P=$(readlink -f "$P")
 cd /repo || exit 9
 git diff --quiet || { echo "repo dirty"; exit 9; }
 git apply "$P" || { echo "patch does not apply"; exit 9; }
